@@ -61,7 +61,12 @@ RULE = (
     'the in-domain-only cases.  time2idx queries are the same instants '
     'given as naive, UTC-aware, or aware datetimes with offsets -06:00, '
 
-    '+05:30, +09:00, -11:00, +05:45, +01:00 (the instant decides the cell).  One third of the datetime cases are '
+    '+05:30, +09:00, -11:00, +05:45, +01:00 (the instant decides the cell); in half of the datetime cases the '
+    'looked-up dimension is called tstep or date and the file also holds a '
+    'differently based variable named time.  One case in three gives the '
+    'coordinate a bounds attribute that names a non-existent variable '
+    'while <dim>_bounds / <dim>_bnds exists (the conventional variable '
+    'still applies).  One third of the datetime cases are '
     'two-phase on ONE file object: after the first lookup the time '
     'variable\'s units attribute (unit word hours/minutes/seconds and/or '
     'reference date moved by 0 h .. 366 d) and values (and bounds values) '
@@ -338,8 +343,11 @@ def cases(draw, tier='quick'):
             ['ignore', 'warn', 'warn', 'error'])),
         clean=draw(st.sampled_from(['mask', 'mask', 'none'])),
         left=draw(st.sampled_from([None, None, 'nan'])),
-        right=draw(st.sampled_from([None, None, 'nan']))))
+        right=draw(st.sampled_from([None, None, 'nan'])),
+        dangling=draw(st.sampled_from([False, False, True]))))
     if kind == 'time':
+        spec['tdim'] = draw(st.sampled_from(['time', 'time', 'tstep',
+                                             'date']))
         # time axis: the coordinate is in hours; queries at multiples of
         # 1/64 h (= 56.25 s, whole microseconds)
         if spec['cdtype'] == 'f4':
@@ -448,10 +456,17 @@ def enumerate_cases(tier):
 # ------------------------------------------------------------------ build
 def build(spec):
     from PseudoNetCDF import PseudoNetCDFFile
-    dim = 'time' if spec['kind'] == 'time' else 'x'
+    dim = spec.get('tdim', 'time') if spec['kind'] == 'time' else 'x'
     code = CODE[spec['cdtype']]
     c = np.array(spec['coord'], dtype=code)
     f = PseudoNetCDFFile()
+    if spec['kind'] == 'time' and dim != 'time':
+        # the file also holds a differently based variable called 'time';
+        # the lookup is on `dim` and must use that coordinate's units
+        f.createDimension('time', 2)
+        tv = f.createVariable('time', 'd', ('time',))
+        tv[:] = [0., 1.]
+        tv.units = 'days since 1900-01-01 00:00:00'
     f.createDimension(dim, c.size)
     v = f.createVariable(dim, code, (dim,))
     v[:] = c
@@ -467,6 +482,10 @@ def build(spec):
         bname = dim + spec['bname'] if spec['bname'] != 'attr' else 'cell_e'
         if spec['bname'] == 'attr':
             v.bounds = bname
+        elif spec.get('dangling'):
+            # bounds attribute naming a variable that does not exist: the
+            # conventional <dim>_bounds / <dim>_bnds variable still applies
+            v.bounds = 'no_such_bounds_variable'
         if spec['bkind'] == 'edges':
             f.createDimension('ne', e.size)
             bv = f.createVariable(bname, ecode, ('ne',))
@@ -489,13 +508,14 @@ def rebase(f, spec):
     and units attribute of the time variable (and the values of its bounds
     variable) as described by `spec`"""
     code = CODE[spec['cdtype']]
-    v = f.variables['time']
+    tdim = spec.get('tdim', 'time')
+    v = f.variables[tdim]
     v[:] = np.array(spec['coord'], dtype=code)
     y, mo, d, h = spec['ref']
     v.units = '%s since %04d-%02d-%02d %02d:00:00' % (
         spec.get('tunit', 'hours'), y, mo, d, h)
     if spec['bkind'] != 'none':
-        bname = 'time' + spec['bname'] if spec['bname'] != 'attr' \
+        bname = tdim + spec['bname'] if spec['bname'] != 'attr' \
             else 'cell_e'
         e = np.array(spec['edges'], dtype='d' if code in 'ihq' else code)
         bv = f.variables[bname]
@@ -510,7 +530,7 @@ def call(spec, fobj=None):
     if fobj is None:
         f, dim = build(spec)
     else:
-        f, dim = fobj, 'time'
+        f, dim = fobj, spec.get('tdim', 'time')
     q = np.array(spec['queries'], dtype='d')
     kw = dict(method=spec['method'], bounds=spec['bounds'],
               clean=spec['clean'])
@@ -532,7 +552,7 @@ def call(spec, fobj=None):
                      for t, o in zip(times, qtz)]
 
         def fn():
-            return f.time2idx(np.array(times), dim='time', **kw)
+            return f.time2idx(np.array(times), dim=dim, **kw)
     else:
         val = q[0] if spec.get('scalar') else q
 
@@ -702,7 +722,10 @@ def _check_single(spec, fobj=None):
         r.label('bname:' + spec['bname'])
     if spec.get('scalar'):
         r.label('scalar-query')
+    if spec.get('dangling') and hasb and spec['bname'] != 'attr':
+        r.label('dangling-bounds-attribute+' + spec['bname'])
     if spec['kind'] == 'time':
+        r.label('tdim:' + spec.get('tdim', 'time'))
         qtz = spec.get('qtz', 'utc')
         r.label('qtz:' + (qtz if isinstance(qtz, str) else
                           ('offsets-nonzero' if any(qtz) else
